@@ -59,11 +59,12 @@ def _holders():
 
 
 def snapshot():
-    global _saved, _holder_list, _nvars, _caches
+    global _saved, _holder_list, _nvars, _caches, _defaults
     _saved = []
     _holder_list = list(_holders())
     _nvars = {}
     _caches = []
+    _defaults = []
     for h in _holder_list:
         items = list(vars(h).items())
         _nvars[id(h)] = len(items)
@@ -80,11 +81,21 @@ def snapshot():
                     cc = getattr(f, 'cache_clear', None)
                     if cc is not None and callable(cc):
                         _caches.append(cc)
+                    # ... and so do mutable default arguments
+                    # (def f(x, seen=[]): state for the life of the process)
+                    f = getattr(f, '__wrapped__', f)
+                    if inspect.isfunction(f):
+                        ds = list(f.__defaults__ or ()) + list(
+                            (f.__kwdefaults__ or {}).values())
+                        for d in ds:
+                            if isinstance(d, CONTAINERS):
+                                _defaults.append((d, type(d)(d)))
 
 
 _holder_list = []
 _nvars = {}
 _caches = []
+_defaults = []
 
 
 def restore():
@@ -113,6 +124,13 @@ def restore():
             cc()
         except Exception:
             pass
+    for obj, val in _defaults:
+        if obj != val:
+            if isinstance(obj, list):
+                obj[:] = val
+            else:
+                obj.clear()
+                obj.update(val)
     # state added at run time under new names (a cache created lazily)
     for h in _holder_list:
         d = vars(h)
